@@ -1,22 +1,5 @@
 #!/bin/bash
-# Runs the repository's own test suite with the verif guard OFF (no overlay, no tags)
-# and compares with /root/.vp/BASELINE.json stable_pass. Exit 0 iff every stable test passes.
-export GOFLAGS=-mod=mod GOPROXY=off GOSUMDB=off GOTOOLCHAIN=local
-OUT=${1:-/root/scratch/baseline.gotest.json}
-mkdir -p "$(dirname "$OUT")"
-(cd /repo && go test -mod=mod -json -vet=off -count=1 -timeout 25m ./... > "$OUT" 2>/dev/null)
-python3 - "$OUT" <<'PY'
-import json,sys
-base=json.load(open('/root/.vp/BASELINE.json'))
-want=set(base['stable_pass'])
-passed=set()
-for l in open(sys.argv[1]):
-    try: e=json.loads(l)
-    except Exception: continue
-    if e.get('Action')=='pass' and e.get('Test'):
-        passed.add(e['Package']+'::'+e['Test'])
-missing=sorted(want-passed)
-print(f"stable_pass={len(want)} passed_now={len(want&passed)} missing={len(missing)}")
-for m in missing[:50]: print("MISSING",m)
-sys.exit(1 if missing else 0)
-PY
+# Runs the repository's own test suite with the verif guard OFF (no overlay, no tags) and compares
+# with /root/.vp/BASELINE.json stable_pass (timing-sensitive tests that are missing after the full
+# run get a second chance alone). Exit 0 iff every stable test passes.
+exec "$(dirname "$0")/seed_baseline.sh" "${VERIF_REPO:-/repo}"
